@@ -46,7 +46,6 @@ func (w *Worker) newPath(prefix []int64, harness string) *Path {
 	return p
 }
 
-func (p *Path) lockEvent(m *value, acquire bool) {}
 
 func (p *Path) chanReady(ch chan value) bool {
 	if ch == nil {
@@ -226,6 +225,28 @@ func RegisterSV(ld *Loaded) {
 			out = append(out, strBytes(s)...)
 		}
 		return mkStr(out)
+	})
+	reg("Go", func(fr *frame, args []value) value {
+		fr.i.path.svGo(args[1])
+		return nil
+	})
+	reg("Wait", func(fr *frame, args []value) value {
+		p := fr.i.path
+		p.svWait(fr)
+		// every race found is a failed (implicit) assertion
+		if len(p.races) > 0 {
+			p.sites["C11.race"]++
+			r, mv := p.sess.CheckWith(nil, p.inputTerms())
+			if r == Sat {
+				c := p.mkCand("C11.race", "", mv)
+				c.PanicMsg = strings.Join(p.races, "; ")
+				p.cands = append(p.cands, c)
+			}
+			p.notes["races"] = strings.Join(p.races, "; ")
+		} else {
+			p.sites["C11.race"]++
+		}
+		return nil
 	})
 	reg("Symbolic", func(fr *frame, args []value) value { return true })
 	reg("Failed", func(fr *frame, args []value) value { return false })
@@ -640,6 +661,7 @@ func (w *Worker) runPath(ld *Loaded, harness string, prefix []int64) (res *PathR
 	res.Forbidden = p.forbidden
 	res.Funcs = p.funcs
 	res.Params = p.params
+	res.Races, res.RacePairs, res.RaceQ = p.races, p.racePairs, p.raceQueries
 	if res.End == "ok" || res.End == "panic" {
 		func() {
 			defer func() {
